@@ -859,19 +859,19 @@ class ZipfCheck(Check):
 
 class C06(ZipfCheck):
     lean_module = 'CppUtil.Props.C06'
-    theorems = []
+    theorems = ['CppUtil.Props.c06_inverse_cdf', 'CppUtil.Props.c06_in_range', 'CppUtil.Props.c06_one_bin', 'CppUtil.Props.c06_switch']
     categories = ['inverse', 'range', 'crash']
 
 
 class C18(ZipfCheck):
     lean_module = 'CppUtil.Props.C18'
-    theorems = []
+    theorems = ['CppUtil.Props.c18_exact_entries', 'CppUtil.Props.c18_exact_monotone', 'CppUtil.Props.c18_one_bin', 'CppUtil.Props.c18_approx_equals_exact', 'CppUtil.Props.c18_approx_last_is_one']
     categories = ['cdf', 'close']
 
 
 class C19(ZipfCheck):
     lean_module = 'CppUtil.Props.C19'
-    theorems = []
+    theorems = ['CppUtil.Props.c19_class_facts', 'CppUtil.Props.c19_function_of_table_and_variate', 'CppUtil.Props.c19_table_function_of_params']
     categories = ['pure']
 
 
